@@ -89,3 +89,30 @@ Proof.
               (proj2 (proj2 (mupdate_fresh_applies vo s a k f)))))).
 Qed.
 Print Assumptions C07_map_fresh_dot.
+
+From Crdt Require Import model.Map spec.System spec.OrswotSpec spec.OrswotSystem spec.MapSpec spec.MapSystem proofs.OrswotSystem proofs.MapKeys.
+
+(** Map (top level, any nested value type): the remove context [get] hands out for a key is
+    exactly the clock of the key's surviving witnesses (empty iff absent), for every state
+    reachable by per-actor delivery, duplicates and merges of API-generated ops *)
+Theorem C07_map_get_context_exact {V O E} (vo : valops V O E) (H : list (oprec (mop O))) :
+  owfH (habs H) ->
+  forall (s : cmap V) (K : gset nat) (k : N), mapreach vo H s K ->
+    (k ∈ dom (mentries s) <-> exists d : dot, d ∈ mlive_dots (known_ops H K) k)
+    /\ (k ∈ dom (mentries s) <->
+        exists (d : dot) (o : O), MUp d k o ∈ known_ops H K
+          /\ ~ exists (c : gmap N N) (ks : gset N), MRm c ks ∈ known_ops H K /\ k ∈ ks /\ dcounter d <= vget c (dactor d))
+    /\ rm_clock (mget s k) = mspec_entry_clock (known_ops H K) k
+    /\ (is_Some (rval (mget s k)) <-> k ∈ dom (mentries s)).
+Proof. exact (map_key_present_iff vo H). Qed.
+Print Assumptions C07_map_get_context_exact.
+
+(** Map: the dot derived for the replica's own actor is its next unused one *)
+Theorem C07_map_derived_dot_fresh {V O E} (vo : valops V O E) (H : list (oprec (mop O))) :
+  maphist_ok vo H ->
+  forall (s : cmap V) (K : gset nat) (a : N), mapreach vo H s K -> own_known H a K ->
+    let d := ac_dot (derive_add_ctx (mread_ctx s) a) in
+    dactor d = a /\ dcounter d = vget (mclock s) a + 1
+    /\ (forall (j : nat) (r : oprec (mop O)) (k : N) (o : O), H !! j = Some r -> op_val r <> MUp d k o).
+Proof. exact (map_update_dot_fresh vo H). Qed.
+Print Assumptions C07_map_derived_dot_fresh.
